@@ -51,6 +51,12 @@ def _typed_units(main):
 ENGINES = {
     "e_static": {"dir": "e_static", "units": _static_units()},
     "e_seg": {"dir": "e_seg", "units": _typed_units("e_seg.cpp")},
+    "e_variants": {"dir": "e_variants", "units": [
+        ("inst.cpp", {"VF_KEY": "uint8_t", "VF_KEYID": "u8", "VF_KEYBITS": "8"}),
+        ("inst.cpp", {"VF_KEY": "uint16_t", "VF_KEYID": "u16", "VF_KEYBITS": "16"}),
+        ("inst.cpp", {"VF_KEY": "uint32_t", "VF_KEYID": "u32", "VF_KEYBITS": "32"}),
+        ("inst.cpp", {"VF_KEY": "uint64_t", "VF_KEYID": "u64", "VF_KEYBITS": "64"}),
+        ("e_variants.cpp", {})]},
 }
 
 CHECKS = {
@@ -62,6 +68,12 @@ CHECKS = {
             "quick": {"shards": 8, "cases": 4000}, "thorough": {"shards": 16, "cases": 120000}},
     "C04": {"engine": "e_seg",
             "quick": {"shards": 8, "cases": 2500}, "thorough": {"shards": 16, "cases": 60000}},
+    "C08": {"engine": "e_variants",
+            "quick": {"shards": 8, "cases": 3000}, "thorough": {"shards": 16, "cases": 100000}},
+    "C09": {"engine": "e_variants",
+            "quick": {"shards": 8, "cases": 3000}, "thorough": {"shards": 16, "cases": 100000}},
+    "C10": {"engine": "e_variants",
+            "quick": {"shards": 8, "cases": 3000}, "thorough": {"shards": 16, "cases": 100000}},
     "C07": {"engine": "e_static",
             "quick": {"shards": 8, "cases": 4000}, "thorough": {"shards": 16, "cases": 120000}},
 }
